@@ -438,7 +438,29 @@ def t_convert(p):
     raise ValueError(v)
 
 
+def t_subrelu(p):
+    """k instances of Relu(Sub(a, b)) feeding a sum: what the persistent custom rule objects of the child process (an
+    as_function rule, a rule with a replacement-side counter ...) match."""
+    nodes, acc = [], None
+    for k in range(p["k"]):
+        a, b = ("x", "y") if k % 2 == 0 else ("y", "x")
+        nodes += [_n("Sub", [a, b], [f"s{k}"]), _n("Relu", [f"s{k}"], [f"r{k}"])]
+        if acc is None:
+            acc = f"r{k}"
+        else:
+            nodes.append(_n("Add", [acc, f"r{k}"], [f"a{k}"]))
+            acc = f"a{k}"
+    nodes.append(_n("Mul", [acc, "w"], ["out"]))
+    return _model(nodes, [_vi("x", F, [p["n"]]), _vi("y", F, [p["n"]])], [_vi("out", F, [p["n"]])],
+                  [_init("w", np.full((p["n"],), p["w"], np.float32))], opset=p.get("opset", 18))
+
+
+def g_subrelu(rng):
+    return {"k": rng.choice([1, 1, 2, 3]), "n": rng.choice([2, 3, 4]), "w": rng.choice([0.5, 2.0, -1.0]), "opset": rng.choice([18, 20])}
+
+
 TEMPLATES = {
+    "subrelu": t_subrelu,
     "reshape_reshape": t_reshape_reshape, "flatten": t_flatten, "pad_conv": t_pad_conv, "materialize": t_materialize,
     "layernorm": t_layernorm, "rmsnorm": t_rmsnorm, "basic": t_basic, "fold": t_fold, "convert": t_convert,
     "fold_versioned": t_fold_versioned,
@@ -579,9 +601,11 @@ def g_fold_versioned(rng):
             "k": [[round(rng.uniform(-3, 3), 2) for _ in range(n)] for _ in range(2)]}
 
 
-def g_convert(rng):
+def g_convert(rng, variant=None):
     # GroupNormalization-18 is rejected by onnx.checker as deprecated: not used as a target
     v = rng.choice(["gridsample", "dft", "plain"])
+    if variant is not None:
+        v = variant
     src = {"gridsample": rng.choice([18, 19]), "dft": rng.choice([18, 19]), "groupnorm": rng.choice([18, 19, 20]),
            "plain": rng.choice([18, 19, 20, 21])}[v]
     p = {"variant": v, "src": src, "target": rng.choice([t for t in (20, 21, 22, 23) if t > src])}
@@ -627,8 +651,12 @@ def model_target(rng, api: str, idx: int):
         t, g = FOLD_SOURCES[idx % len(FOLD_SOURCES)]
         return {"api": "fold", "template": t, "params": g(rng)}
     if api == "convert":
-        p = g_convert(rng)
+        # strata: the model hits no adapter / GridSample / DFT, in turn
+        p = g_convert(rng, variant=["plain", "gridsample", "dft"][idx % 3])
         return {"api": "convert", "template": "convert", "params": p, "target_version": p["target"]}
+    if api == "rewrite_custom":
+        # the child's persistent custom rule objects (kind: as_function / counter / plain), in turn
+        return {"api": "rewrite_custom", "rule": ["asfn", "plain", "asfn"][idx % 3], "template": "subrelu", "params": g_subrelu(rng)}
     raise ValueError(api)
 
 
@@ -637,7 +665,10 @@ def model_target(rng, api: str, idx: int):
 # --------------------------------------------------------------------------------------------
 
 HISTORY_OPS = ["tr_ok", "tr_refused", "opt_ok", "rw_ok", "rw_check_raise", "pat_raise", "rw_setfail", "eval_raise",
-               "fold_ok", "cv_ok", "cv_raise", "tr_roles"]
+               "fold_ok", "cv_ok", "cv_raise"]
+# operations that are only placed deliberately (sibling histories), never drawn at random - so that extending this list does
+# not shift the random histories of the other targets
+PLACED_OPS = ["tr_roles", "rwc_ok"]
 
 
 def roles_script(fname: str, which: int) -> str:
@@ -667,6 +698,8 @@ def history_op(rng, name: str):
         return {"h": name, "which": rng.randrange(len(REFUSED))}
     if name == "tr_roles":
         return {"h": name, "which": rng.randrange(4)}
+    if name == "rwc_ok":
+        return {"h": name, "model": model_target(rng, "rewrite_custom", rng.randrange(100))}
     if name == "opt_ok":
         return {"h": name, "model": model_target(rng, "optimize", rng.randrange(100))}
     if name == "rw_ok":
@@ -701,7 +734,7 @@ def history_op(rng, name: str):
     raise ValueError(name)
 
 
-GENS = {"reshape_reshape": g_reshape_reshape, "flatten": g_flatten, "pad_conv": g_pad_conv, "materialize": g_materialize,
+GENS = {"subrelu": g_subrelu, "reshape_reshape": g_reshape_reshape, "flatten": g_flatten, "pad_conv": g_pad_conv, "materialize": g_materialize,
         "layernorm": g_layernorm, "rmsnorm": g_rmsnorm, "basic": g_basic, "fold": g_fold, "convert": g_convert,
         "fold_versioned": g_fold_versioned}
 SETFAIL_FOR = {"reshape_reshape": ["reshape"], "pad_conv": ["pad_nonspatial", "pad_negative", "pad_autopad"], "layernorm": ["ln"],
@@ -726,10 +759,35 @@ def sibling_history(rng, target):
     if target["api"] == "script":
         k = target["script"]["kind"]
         return [{"h": "tr_ok", "script": {"kind": k, "nlive": 3 + rng.randrange(4), "gseed": rng.randrange(1 << 30)}},
-                {"h": "tr_roles", "which": rng.randrange(4)},
+                {"h": "tr_roles", "which": (target["script"]["nlive"] + len(k)) % 4},
                 {"h": "tr_refused", "which": rng.randrange(len(REFUSED))},
                 {"h": "tr_ok", "script": {"kind": k, "nlive": target["script"]["nlive"], "gseed": rng.randrange(1 << 30)}}]
     t = target["template"]
+    if target["api"] == "rewrite_custom":
+        # the SAME persistent rule object applied to other models first (1, 2, 3 instances), then the other rule object
+        out = []
+        for k in (1, 3, 2):
+            out.append({"h": "rwc_ok", "model": {"api": "rewrite_custom", "rule": target["rule"], "template": "subrelu", "params": dict(g_subrelu(rng), k=k)}})
+        out.append({"h": "rwc_ok", "model": {"api": "rewrite_custom", "rule": "plain" if target["rule"] == "asfn" else "asfn", "template": "subrelu",
+                                              "params": g_subrelu(rng)}})
+        return out
+    if target["api"] == "convert":
+        # conversions to the SAME target version first: one per operator with an adapter (each adapter actually replaces a
+        # node), a refused one, then a model without adapters
+        tv = target["target_version"]
+        out = []
+        for variant in ("gridsample", "dft", "plain"):
+            p = g_convert(rng, variant=variant)
+            if p["src"] >= tv:
+                p["src"] = 18 if variant != "plain" or tv > 18 else 18
+            p["target"] = tv
+            if variant == "gridsample":
+                p["mode"] = rng.choice(["bilinear", "bicubic"])
+            out.append({"h": "cv_ok", "model": {"api": "convert", "template": "convert", "params": p, "target_version": tv}})
+        m = model_target(rng, "convert", rng.randrange(100))
+        m["target_version"] = rng.choice([17, 99])
+        out.insert(2, {"h": "cv_raise", "model": m})
+        return out
     hname = {"optimize": "opt_ok", "rewrite": "rw_ok", "fold": "fold_ok", "convert": "cv_ok"}[target["api"]]
     out = []
     for _ in range(2):
